@@ -442,3 +442,7 @@ func Ite(c, a, b bool) bool {
 
 // SymbolicAddrs makes pointer-to-integer conversions yield arbitrary (symbolic) addresses (engine only).
 func SymbolicAddrs(on bool) {}
+
+// AssertNoGlobalWrites asserts (engine only) that nothing since TrackGlobals(true) wrote to package-level state;
+// natively the harness runs the same operations on two goroutines under the race detector instead.
+func AssertNoGlobalWrites(id string) { events = append(events, Event{"assert", id, "true"}) }
